@@ -43,6 +43,18 @@ def showList : List M → String
   | m :: ms => " " ++ showM m ++ showList ms
 end
 
+mutual
+/-- packaging's parsed list in the protocol's token syntax (harness `enc_ast`) -/
+def showItem : PItem → String
+  | .atom v l o r => "a:" ++ (if v then "t" else "f") ++ ":" ++ enc l ++ ":" ++ enc o ++ ":" ++ enc r
+  | .group its => "[" ++ showItems its ++ " ]"
+  | .and_ => "and"
+  | .or_ => "or"
+def showItems : List PItem → String
+  | [] => ""
+  | it :: its => " " ++ showItem it ++ showItems its
+end
+
 /-- expressions over parsed leaves -/
 inductive Expr where
   | leaf (p : PItem)
